@@ -167,7 +167,8 @@ def validate(ctx, traces):
         if v["clause"].endswith(".value") and v["want"][1] > 0:
             raw = t["raw"][v["l"] - 1][v["obj"] - 1].get(json.dumps(v["a"] if isinstance(v["a"], dict) else {}, sort_keys=True))
             if raw is not None and abs(raw - v["want"][0] / v["want"][1]) <= 1e-9 * max(1.0, abs(raw)):
-                raise Machinery(f"rationalisation artefact in trace {tid}: float {raw} vs {v['want']}")
+                ctx.artefact(f"C04 trace {tid}: float {raw} vs {v['want']}")
+                continue
         ctx.violation({"api": "DiscreteFactor." + t["steps"][v["l"] - 1]["o"]["op"], "clause": v["clause"].split(".", 1)[1],
                        "features": {"inplace": t["steps"][v["l"] - 1]["o"]["inplace"]},
                        "case": {"kind": "trace", "trace": {k: t[k] for k in t if k != "raw"}}, "observed": v, "expected": v["want"]})
